@@ -259,9 +259,9 @@ namespace Ieee
 
 /-- binary interchange format with `w` exponent bits and `t` trailing significand bits -/
 def decodeIeee (w t : Nat) (bits : Nat) : Val :=
-  let frac := bits % 2 ^ t
-  let ex := (bits / 2 ^ t) % 2 ^ w
-  let neg := (bits / 2 ^ (t + w)) % 2 = 1
+  let frac : Nat := bits % 2 ^ t
+  let ex : Nat := (bits / 2 ^ t) % 2 ^ w
+  let neg : Bool := (bits / 2 ^ (t + w)) % 2 = 1
   let bias : Int := 2 ^ (w - 1) - 1
   if ex = 2 ^ w - 1 then (if frac = 0 then .inf neg else .nan)
   else if ex = 0 then .fin neg frac (1 - bias - t)
@@ -272,9 +272,9 @@ def decode64 (b : BitVec 64) : Val := decodeIeee 11 52 b.toNat
 
 /-- x87 double extended: explicit integer bit; unnormals and pseudo-NaN/∞ are invalid operands (classified `nan`) -/
 def decode80 (b : BitVec 80) : Val :=
-  let m := b.toNat % 2 ^ 64
-  let ex := (b.toNat / 2 ^ 64) % 2 ^ 15
-  let neg := (b.toNat / 2 ^ 79) % 2 = 1
+  let m : Nat := b.toNat % 2 ^ 64
+  let ex : Nat := (b.toNat / 2 ^ 64) % 2 ^ 15
+  let neg : Bool := (b.toNat / 2 ^ 79) % 2 = 1
   let bias : Int := 16383
   if ex = 32767 then (if m = 2 ^ 63 then .inf neg else .nan)
   else if ex = 0 then .fin neg m (1 - bias - 63)
